@@ -79,12 +79,14 @@ def kind_of_value(v) -> Optional[str]:
 
 
 class Arm:
-    def __init__(self, mode, kinds, test, body, extra=""):
+    def __init__(self, mode, kinds, test, body, extra="", q=None, subject=None):
         self.mode = mode  # 'isinstance' | 'exact' | 'eq' | 'else' | 'other'
         self.kinds = kinds  # list of kind names (or folded constants for 'eq')
         self.test = test
         self.body = body  # list of statements, or an expression for IfExp arms
         self.extra = extra  # text of additional conjuncts
+        self.q = q  # function the body lives in (None: the function of the chain)
+        self.subject = subject  # name of the dispatched value inside that function
 
     def admits(self, k):
         if self.mode == "isinstance":
@@ -190,9 +192,44 @@ def early_return_chain(ctx: Ctx, qual, subject) -> List[Arm]:
     for s in fi.node.body:
         if isinstance(s, ast.If):
             arms += chain_from_if(ctx, qual, s, subject)
+        elif isinstance(s, ast.For):
+            arms += table_dispatch_arms(ctx, qual, s, subject)
         elif isinstance(s, ast.Return):
             arms.append(Arm("else", [], None, [s]))
             break
+    return arms
+
+
+def table_dispatch_arms(ctx: Ctx, qual, loop: ast.For, subject):
+    """for cls, fn in TABLE: if isinstance(value, cls): return fn(value)   ->  one isinstance arm per table row, in table
+    order, whose body is the body of the row's function."""
+    try:
+        tab = ctx.eval_in(qual, loop.iter)
+    except AnalysisError:
+        return []
+    rows = ctx.f._iterate(tab) if not is_unknown(tab) else None
+    if isinstance(tab, dict):
+        rows = list(tab.items())
+    if not rows or not isinstance(loop.target, ast.Tuple) or len(loop.target.elts) != 2:
+        return []
+    cvar, fvar = (norm(x) for x in loop.target.elts)
+    ok = False
+    for n in ast.walk(loop):
+        if isinstance(n, ast.If) and isinstance(n.test, ast.Call) and call_name(n.test) == "isinstance" and len(n.test.args) == 2 and norm(n.test.args[0]) == subject and norm(n.test.args[1]) == cvar:
+            if any(isinstance(r, ast.Return) and isinstance(r.value, ast.Call) and norm(r.value.func) == fvar for r in n.body):
+                ok = True
+                test = n.test
+    if not ok:
+        return []
+    arms = []
+    for row in rows:
+        if not (isinstance(row, (tuple, list)) and len(row) == 2 and isinstance(row[1], FuncRef)):
+            raise AnalysisError("dispatch table row not (class, function) in %s" % qual)
+        k = kind_of_value(row[0])
+        if k is None:
+            raise AnalysisError("cannot resolve a class in the dispatch table of %s" % qual)
+        f = ctx.fn(row[1].qual)
+        arms.append(Arm("isinstance", [k], test, list(f.node.body), q=f.qual, subject=f.params[0] if f.params else subject))
     return arms
 
 
@@ -324,12 +361,19 @@ def json_writer_chain(ctx: Ctx):
     return locate_chain(ctx, JS + ".encode_json_representation", 3)
 
 
-def json_arm_outcome(ctx: Ctx, q, arm: Arm, subject, k):
-    """-> ('tag', str) | ('raw', None) | ('literal', None) | ('?', text)"""
+def json_arm_outcome(ctx: Ctx, q, arm: Arm, subject, k, _depth=0):
+    """-> ('tag', str) | ('tags', [..]) | ('raw', None) | ('literal', None) | ('?', text)"""
+    q = arm.q or q
+    subject = arm.subject or subject
     rets = returned_exprs(arm.body)
     if len(rets) != 1:
         return ("?", "no single return")
     e = rets[0]
+    if isinstance(e, ast.Call) and call_name(e) != "literal_json_representation" and isinstance(e.func, ast.Name) and _depth < 3:
+        r = ctx.p.resolve_name(ctx.fn(q).module, e.func.id)
+        if r and r[0] == "func" and e.args and norm(e.args[0]) == subject:
+            f = ctx.fn(r[1])
+            return json_arm_outcome(ctx, f.qual, Arm("else", [], None, list(f.node.body), q=f.qual, subject=f.params[0]), f.params[0], k, _depth + 1)
     if isinstance(e, ast.Dict):
         d = {}
         for kx, vx in zip(e.keys, e.values):
@@ -371,46 +415,39 @@ def json_writer_tags(ctx: Ctx):
 
 
 def json_reader_table(ctx: Ctx):
-    """tag QN -> kind, and the default outcome, from decode_json_representation."""
-    q = JS + ".decode_json_representation"
-    fi = ctx.fn(q)
+    """tag QN -> kind, and the default outcome, from decode_json_representation (and its helpers): every
+    `if <x> == <folded QN>:` arm gives a special case, the Literal(...) construction is the default."""
+    q0 = JS + ".decode_json_representation"
     table = {}
     default = None
-    dict_arm = None
-    for s in fi.node.body:
-        if isinstance(s, ast.If):
-            t = s.test
-            if isinstance(t, ast.Call) and call_name(t) == "isinstance" and len(t.args) == 2 and kind_of_class_expr(ctx, fi.module, t.args[1]) == "dict":
-                dict_arm = s
-    if dict_arm is None:
-        raise AnalysisError("decode_json_representation: no isinstance(literal, dict) discrimination")
-    # the variable holding the resolved datatype: the one compared with folded QN constants
-    for n in ast.walk(dict_arm):
-        if isinstance(n, ast.If) and isinstance(n.test, ast.Compare) and isinstance(n.test.ops[0], ast.Eq):
-            cur = n
-            while True:
+    shape_ok = False
+    for q in ctx.helper_closure(q0):
+        if not q.startswith(JS + "."):
+            continue
+        fi = ctx.fn(q)
+        for n in walk_function(fi.node):
+            if isinstance(n, ast.Call) and call_name(n) == "isinstance" and len(n.args) == 2 and kind_of_class_expr(ctx, fi.module, n.args[1]) == "dict":
+                shape_ok = True
+            if isinstance(n, ast.If) and isinstance(n.test, ast.Compare) and len(n.test.ops) == 1 and isinstance(n.test.ops[0], ast.Eq):
                 v = None
-                for side in (cur.test.left, cur.test.comparators[0]):
+                for side in (n.test.left, n.test.comparators[0]):
                     try:
                         x = ctx.eval_in(q, side)
                     except AnalysisError:
                         x = None
                     if isinstance(x, QN):
                         v = x
-                kind = outcome_kind(ctx, q, returned_exprs(cur.body))
                 if v is not None:
-                    table[v] = kind
-                if len(cur.orelse) == 1 and isinstance(cur.orelse[0], ast.If) and isinstance(cur.orelse[0].test, ast.Compare):
-                    cur = cur.orelse[0]
-                    continue
-                if cur.orelse:
-                    default = outcome_kind(ctx, q, returned_exprs(cur.orelse))
-                break
-            break
+                    rets = returned_exprs(n.body)
+                    if rets:
+                        table[v] = outcome_kind(ctx, q, rets)
+            if isinstance(n, ast.Return) and isinstance(n.value, ast.Call) and kind_of_class_expr(ctx, fi.module, n.value.func) == "Literal":
+                default = "Literal"
+    if not shape_ok:
+        raise AnalysisError("decode_json_representation: no isinstance(literal, dict) discrimination")
     if default is None:
         raise AnalysisError("decode_json_representation: cannot find the default (Literal) arm")
-    raw_ok = any(isinstance(s, ast.If) and s is dict_arm and s.orelse for s in fi.node.body)
-    return table, default, dict_arm
+    return table, default, None
 
 
 def outcome_kind(ctx: Ctx, q, rets):
@@ -442,22 +479,24 @@ def model_parser_kind(ctx: Ctx, tagqn):
 
 
 def check_auto_conversion_wired(ctx: Ctx, res, rule_id):
-    """The reader relies on add_attributes -> _auto_literal_conversion -> parse_xsd_types(value, datatype)
-    -> XSD_DATATYPE_PARSERS[datatype](value).  Check that wiring (one obligation per hop)."""
-    q = M + ".ProvRecord._auto_literal_conversion"
-    fi = ctx.fn(q)
-    hop1 = any(call_name(c) == "parse_xsd_types" for c in calls_in(fi.node))
-    res.ob("_auto_literal_conversion converts typed literals through parse_xsd_types: %s" % hop1)
-    pq = M + ".parse_xsd_types"
-    pf = ctx.fn(pq)
-    tabs = [v for kind, v, text, key, node in ctx.table_lookups(pq) if isinstance(v, dict) and v == ctx.const(M, "XSD_DATATYPE_PARSERS")]
-    res.ob("parse_xsd_types looks the datatype up in XSD_DATATYPE_PARSERS: %s" % bool(tabs))
+    """The readers rely on: add_attributes normalises non-formal values by looking the literal's datatype up in
+    XSD_DATATYPE_PARSERS (today via _auto_literal_conversion -> parse_xsd_types).  Checked as reachability in the helper
+    closure, so that the hops may be renamed, split or turned into module functions."""
     aq = M + ".ProvRecord.add_attributes"
-    hop0 = any(call_name(c) == "_auto_literal_conversion" for c in calls_in(ctx.fn(aq).node))
-    res.ob("add_attributes normalises non-formal values through _auto_literal_conversion: %s" % hop0)
-    if not (hop0 and hop1 and tabs):
-        res.fail(rule_id, "literal-normalisation-wiring", ctx.loc(q, fi.node),
-                 "typed literals are no longer converted to native values on insertion (add_attributes -> _auto_literal_conversion -> parse_xsd_types -> XSD_DATATYPE_PARSERS)",
+    tab = ctx.const(M, "XSD_DATATYPE_PARSERS")
+    reach = ctx.helper_closure(aq, depth=4)
+    hits = []
+    for q2 in reach:
+        for kind, v, text, key, node in ctx.table_lookups(q2):
+            if isinstance(v, dict) and v == tab and kind in ("index", "get"):
+                hits.append((q2, text))
+    path = [x.rsplit(".", 1)[1] for x in reach if any(h[0] == x for h in hits)]
+    res.ob("add_attributes reaches a lookup of the literal's datatype in XSD_DATATYPE_PARSERS (through %d helper functions; lookup in %s): %s" % (len(reach) - 1, path, bool(hits)))
+    calls_parser = any(isinstance(c.func, ast.Subscript) or (isinstance(c.func, ast.Name) and c.func.id in ("parser",)) for q2, _ in hits for c in calls_in(ctx.fn(q2).node))
+    res.ob("the looked-up parser is applied to the lexical value: %s" % calls_parser)
+    if not hits or not calls_parser:
+        res.fail(rule_id, "literal-normalisation-wiring", ctx.loc(aq, ctx.fn(aq).node),
+                 "typed literals are no longer converted to native values on insertion (add_attributes no longer reaches a lookup in XSD_DATATYPE_PARSERS)",
                  "every int/float/bool/datetime written by a serializer reloads as a Literal object")
 
 
@@ -524,14 +563,66 @@ def c01_r3(ctx: Ctx, rule):
 
 
 # ------------------------------------------------------------------------------------------ XML
+def find_kind_chains(ctx: Ctx, q0):
+    """Every if/elif chain in q0 or its helpers whose first test is an isinstance / type() dispatch on some name:
+    -> list of (function qual, subject name, arms)."""
+    out = []
+    for q in ctx.helper_closure(q0):
+        fi = ctx.fn(q)
+        if isinstance(fi.node, ast.Lambda):
+            continue
+        subjects = set()
+        for n in walk_function(fi.node):
+            if isinstance(n, ast.Call) and call_name(n) in ("isinstance",) and len(n.args) == 2 and isinstance(n.args[0], ast.Name):
+                subjects.add(n.args[0].id)
+            if isinstance(n, ast.Call) and call_name(n) == "type" and n.args and isinstance(n.args[0], ast.Name):
+                subjects.add(n.args[0].id)
+        for subj in sorted(subjects):
+            try:
+                seq = early_return_chain(ctx, q, subj) if subj in fi.params else []
+                if len([a for a in seq if a.mode in ("isinstance", "exact")]) >= 2:
+                    # a function written as consecutive `if isinstance(..): return ..` statements is one chain
+                    out.append((q, subj, seq))
+                    continue
+                for ch in find_chains(ctx, q, subj):
+                    out.append((q, subj, ch))
+            except AnalysisError:
+                continue
+    return out
+
+
 def xml_writer_chains(ctx: Ctx):
-    q = XM + ".ProvXMLSerializer.serialize_bundle"
-    chains = find_chains(ctx, q, "value")
-    prim = [c for c in chains if any(a.mode == "isinstance" and "Literal" in a.kinds for a in c)]
-    typ = [c for c in chains if any(a.mode == "isinstance" and ("bool" in a.kinds or "float" in a.kinds) for a in c)]
+    q0 = XM + ".ProvXMLSerializer.serialize_bundle"
+    chains = find_kind_chains(ctx, q0)
+    prim = [c for c in chains if any(a.mode == "isinstance" and "Literal" in a.kinds for a in c[2]) and any(a.mode == "isinstance" and "QualifiedName" in a.kinds for a in c[2])]
+    typ = [c for c in chains if any(a.mode == "isinstance" and ("bool" in a.kinds or "float" in a.kinds) for a in c[2])]
+    if len(typ) > 1:
+        # a residual one-arm test (e.g. `if isinstance(value, bool): v = v.lower()`) next to the real chain: keep the longest
+        typ.sort(key=lambda c: -len([a for a in c[2] if a.mode == "isinstance"]))
+        if len([a for a in typ[0][2] if a.mode == "isinstance"]) >= 4 and len([a for a in typ[1][2] if a.mode == "isinstance"]) <= 1:
+            typ = typ[:1]
     if len(prim) != 1 or len(typ) != 1:
-        raise AnalysisError("cannot identify the two kind dispatches of serialize_bundle (found %d/%d)" % (len(prim), len(typ)))
-    return q, prim[0], typ[0]
+        raise AnalysisError("cannot identify the two kind dispatches of the XML writer (found %d/%d)" % (len(prim), len(typ)))
+    for a in prim[0][2]:
+        a.q = a.q or prim[0][0]
+    for a in typ[0][2]:
+        a.q = a.q or typ[0][0]
+    return q0, prim[0][2], typ[0][2]
+
+
+def arm_qn_outcomes(ctx: Ctx, arm: Arm):
+    """QualifiedName constants an arm assigns or returns (every value a helper may choose); None marks an unfoldable one."""
+    q = arm.q
+    out = []
+    for s0 in arm.body:
+        for n in ast.walk(s0):
+            if isinstance(n, ast.Assign) and isinstance(n.targets[0], ast.Name):
+                vs = possible_values(ctx, q, n.value)
+                if any(isinstance(v, QN) for v in vs):
+                    out += vs
+            elif isinstance(n, ast.Return) and n.value is not None and not (isinstance(n.value, ast.Constant) and n.value.value is None):
+                out += possible_values(ctx, q, n.value)
+    return out
 
 
 def assigned_consts(ctx: Ctx, q, body, target_pred):
@@ -545,38 +636,52 @@ def assigned_consts(ctx: Ctx, q, body, target_pred):
 
 
 def xml_reader_table(ctx: Ctx):
-    """_extract_attributes: special-cased datatypes (datatype == CONST -> kind) and the default arm."""
-    q = XM + "._extract_attributes"
-    fi = ctx.fn(q)
+    """_extract_attributes and its helpers: special-cased datatypes (`datatype == CONST` -> kind built in that arm) and the
+    default arm (a Literal built from the text and the datatype)."""
+    q0 = XM + "._extract_attributes"
     special, default = {}, None
-    for n in walk_function(fi.node):
-        if isinstance(n, ast.If) and isinstance(n.test, ast.Compare) and len(n.test.ops) == 1 and isinstance(n.test.ops[0], ast.Eq):
-            v = None
-            for side in (n.test.left, n.test.comparators[0]):
-                try:
-                    x = ctx.eval_in(q, side)
-                except AnalysisError:
-                    x = None
-                if isinstance(x, QN):
-                    v = x
-            if v is None:
-                continue
-            def kinds_of(body):
+    for q in ctx.helper_closure(q0):
+        if not q.startswith(XM + "."):
+            continue
+        fi = ctx.fn(q)
+        for n in walk_function(fi.node):
+            if isinstance(n, ast.If) and isinstance(n.test, ast.Compare) and len(n.test.ops) == 1 and isinstance(n.test.ops[0], ast.Eq):
+                v = None
+                for side in (n.test.left, n.test.comparators[0]):
+                    try:
+                        x = ctx.eval_in(q, side)
+                    except AnalysisError:
+                        x = None
+                    if isinstance(x, QN):
+                        v = x
+                if v is None:
+                    continue
                 ks = set()
-                for s in body:
-                    for a in ast.walk(s):
-                        if isinstance(a, ast.Assign) and isinstance(a.value, ast.Call):
-                            ks.add(outcome_kind(ctx, q, [a.value]))
-                return ks
-            tk = kinds_of(n.body)
-            if len(tk) == 1:
-                special[v] = tk.pop()
-            ek = kinds_of(n.orelse)
-            if len(ek) == 1:
-                default = ek.pop()
+                for s0 in n.body:
+                    for a in ast.walk(s0):
+                        val = a.value if isinstance(a, (ast.Assign, ast.Return)) else None
+                        if isinstance(val, ast.Call):
+                            ks.add(outcome_kind(ctx, q, [val]))
+                if len(ks) == 1:
+                    special[v] = ks.pop()
+            if isinstance(n, ast.Call) and kind_of_class_expr(ctx, fi.module, n.func) == "Literal":
+                has_dt = len(n.args) >= 2 or any(k.arg == "datatype" for k in n.keywords)
+                if has_dt:
+                    default = "Literal"
     if default is None:
         raise AnalysisError("_extract_attributes: cannot find the default Literal(text, datatype) arm")
     return special, default
+
+
+def xsd_tags_of(ctx: Ctx, arm):
+    """xsd datatype constants the arm of the xsi:type inference may choose."""
+    if arm is None:
+        return []
+    xsd = ctx.const(C, "XSD")
+    vals = arm_qn_outcomes(ctx, arm)
+    if any(v is None or is_unknown(v) for v in vals):
+        raise AnalysisError("cannot fold an xsd type chosen by arm %r" % arm)
+    return [v for v in vals if isinstance(v, QN) and v.ns.uri == xsd.uri]
 
 
 @rule("C02", "C02.R3", "PROV-XML xsi:type codec: reader(writer(kind)) = kind for every native value kind", 7,
@@ -585,34 +690,31 @@ def c02_r3(ctx: Ctx, rule):
     res = RuleResult()
     q, prim, typ = xml_writer_chains(ctx)
     special, default = xml_reader_table(ctx)
-    fenv = ctx.fenv(q)
-    # the always-typed tuple: found as the folded collection tested with `type(value) in X`
+    # the always-typed collection: the folded collection tested with `type(<value>) in X`, in the writer or a helper
     always = None
     fi = ctx.fn(q)
-    for n in walk_function(fi.node):
-        if (isinstance(n, ast.Compare) and len(n.ops) == 1 and isinstance(n.ops[0], ast.In) and isinstance(n.left, ast.Call)
-                and call_name(n.left) == "type" and n.left.args and norm(n.left.args[0]) == "value"):
-            v = ctx.eval_in(q, n.comparators[0])
-            if isinstance(v, (tuple, list, set)):
-                always = {kind_of_value(x) for x in v}
+    for q2 in ctx.helper_closure(q):
+        for n in walk_function(ctx.fn(q2).node):
+            if (isinstance(n, ast.Compare) and len(n.ops) == 1 and isinstance(n.ops[0], ast.In) and isinstance(n.left, ast.Call)
+                    and call_name(n.left) == "type" and n.left.args):
+                try:
+                    v = ctx.eval_in(q2, n.comparators[0])
+                except AnalysisError:
+                    continue
+                if isinstance(v, (tuple, list, set)) and v and all(kind_of_value(x) for x in v):
+                    always = {kind_of_value(x) for x in v}
     if always is None:
-        raise AnalysisError("cannot fold the always-typed collection of serialize_bundle")
+        raise AnalysisError("cannot fold the always-typed collection of the XML writer")
     is_xsi = lambda t: isinstance(t, ast.Subscript) and "xsi" in norm(t.slice)
     for k in ["bool", "int", "float", "datetime", "Identifier"]:
         typed = k in always
         arm = arm_for(typ, k)
-        tag = None
-        if arm is not None:
-            allv = assigned_consts(ctx, q, arm.body, lambda t: isinstance(t, ast.Name) and t.id == "xsd_type")
-            vals = [v for v in allv if isinstance(v, QN)]
-            if any(v is None for v in allv):
-                raise AnalysisError("cannot fold the xsd type assigned for %s in serialize_bundle" % k)
-            tag = vals[0] if vals else None
-            # every type a helper may choose must read back as the kind
-            for v in vals:
-                bk = special[v] if v in special else (model_parser_kind(ctx, v) if default == "Literal" else default)
-                if bk != k:
-                    tag = v
+        vals = xsd_tags_of(ctx, arm)
+        tag = vals[0] if vals else None
+        for v in vals:  # every type a helper may choose must read back as the kind
+            bk = special[v] if v in special else (model_parser_kind(ctx, v) if default == "Literal" else default)
+            if bk != k:
+                tag = v
         if tag is None:
             back = "?no tag"
         elif tag in special:
@@ -624,19 +726,19 @@ def c02_r3(ctx: Ctx, rule):
             res.fail(rule.id, "xml-codec::%s::untyped" % k, ctx.loc(q, fi.node), "%s values are not in the always-typed collection: without force_types they are written as plain text" % k,
                      "an attribute holding a %s reloads as a str" % k)
         if back != k:
-            res.fail(rule.id, "xml-codec::%s" % k, ctx.loc(q, arm.test if arm is not None and arm.test is not None else fi.node),
+            res.fail(rule.id, "xml-codec::%s" % k, ctx.loc(arm.q if arm is not None and arm.q else q, arm.test if arm is not None and arm.test is not None else fi.node),
                      "a %s takes arm %r, is typed %s and read back as %s" % (k, arm, getattr(tag, "s", tag), back),
                      "an attribute holding a %s reloads as a %s" % (k, back))
     # str: typed xsd:string (or untyped text) must come back as str
     arm = arm_for(typ, "str")
-    vals = [v for v in assigned_consts(ctx, q, arm.body, lambda t: isinstance(t, ast.Name) and t.id == "xsd_type") if isinstance(v, QN)] if arm else []
+    vals = xsd_tags_of(ctx, arm)
     back = model_parser_kind(ctx, vals[0]) if vals else "str"
     res.ob("kind str: arm %r -> %s -> %s" % (arm, vals[0].s if vals else None, back))
     if back != "str":
         res.fail(rule.id, "xml-codec::str", ctx.loc(q, fi.node), "a str typed %s is read back as %s" % (vals[0].s if vals else None, back))
     # QualifiedName values outside reference attributes: chain 1 tags them; the reader special-cases that tag
     arm = arm_for(prim, "QualifiedName")
-    tags = [v for v in assigned_consts(ctx, q, arm.body, is_xsi) if isinstance(v, str)] if arm else []
+    tags = [v for v in assigned_consts(ctx, arm.q or q, arm.body, is_xsi) if isinstance(v, str)] if arm else []
     tq = resolve_tag(ctx, tags[0]) if tags else None
     back = special.get(tq, "?not special-cased") if tq is not None else "?no tag"
     res.ob("kind QualifiedName: arm %r -> %r -> %s" % (arm, tags[0] if tags else None, back))
@@ -773,7 +875,7 @@ def c06_r4b(ctx: Ctx, rule):
     js = json_writer_tags(ctx).get("float")
     xq, prim, typ = xml_writer_chains(ctx)
     xarm = arm_for(typ, "float")
-    xv = [v for v in assigned_consts(ctx, xq, xarm.body, lambda t: isinstance(t, ast.Name) and t.id == "xsd_type") if isinstance(v, QN)] if xarm else []
+    xv = xsd_tags_of(ctx, xarm)
     xml = xv[0].s if xv else None
     for name, v in (("PROV-N", provn), ("PROV-JSON", js), ("PROV-XML", xml)):
         res.ob("%s types a float as %r" % (name, v))
@@ -792,7 +894,7 @@ def c11_r5(ctx: Ctx, rule):
     xq, prim, typ = xml_writer_chains(ctx)
     for k in ["bool", "int", "float", "datetime", "Identifier"]:
         xarm = arm_for(typ, k)
-        xv = [v for v in assigned_consts(ctx, xq, xarm.body, lambda t: isinstance(t, ast.Name) and t.id == "xsd_type") if isinstance(v, QN)] if xarm else []
+        xv = xsd_tags_of(ctx, xarm)
         xk = model_parser_kind(ctx, xv[0]) if xv else "?"
         jt = js.get(k)
         jq = resolve_tag(ctx, jt) if isinstance(jt, str) else None
